@@ -11,6 +11,7 @@ CONSTANTS
  ConvertWithLiveVfs = TRUE
  CancelledDiagPublishesEmpty = TRUE
  RespawnAllDiags = FALSE
+ PublishOnlyLatest = FALSE
  HoldVfsAcrossApply = FALSE
  SnapshotInTask = FALSE
  PollWhileWaiting = FALSE
